@@ -62,3 +62,9 @@ Theorem normal_fast_guard :
   (* the smallest non-zero value that can reach it, 1 * 10^(G_NF_LO + 1), is a NORMAL double: >= 2^-1022 *)
   10 ^ (- (G_NF_LO + 1)) <= 2 ^ 1022.
 Proof. vm_compute. intuition (discriminate || reflexivity). Qed.
+
+(* ---------- input padding (C01) ---------- *)
+(* a block load that starts at any byte of the text ends inside the padding that parse entry points
+   append behind it (PADDING_SIZE is dumped from the crate, G_MAX_BLOCK is read from the source) *)
+Theorem padding_covers_block_loads : forall len i, 0 <= i < len -> i + G_MAX_BLOCK <= len + Z.of_N PADDING_SIZE.
+Proof. intros len i H. assert (G_MAX_BLOCK <= Z.of_N PADDING_SIZE) by (vm_compute; discriminate). lia. Qed.
